@@ -63,6 +63,11 @@ Classify(m) ==
   LET qt == m.qd[1].t
       qc == m.qd[1].c
   IN IF \E i \in DOMAIN m.an : m.an[i].t = qt /\ m.an[i].c = qc THEN "Answer"
+     ELSE IF "M_first_auth" \in Mut THEN      \* mutant: the first of SOA / NS decides
+       LET idx == {i \in DOMAIN m.ns : m.ns[i].c = qc /\ m.ns[i].t \in {"SOA", "NS"}} IN
+       IF idx = {} THEN "Weird"
+       ELSE LET f == CHOOSE i \in idx : \A j \in idx : i <= j
+            IN IF m.ns[f].t = "SOA" THEN "NoData" ELSE "Delegation"
      ELSE IF \E i \in DOMAIN m.ns : m.ns[i].c = qc /\ m.ns[i].t = "SOA" THEN "NoData"
      ELSE IF \E i \in DOMAIN m.ns : m.ns[i].c = qc /\ m.ns[i].t = "NS" THEN "Delegation"
      ELSE "Weird"
